@@ -169,7 +169,7 @@ def o_after_cut(rec, world, hist):
             out.append(O.V("uptodate-but-unreadable", f"after the cut, store {name} (node {n['id']}) looks up to date but "
                                                       f"cannot be read back: {e!r}"))
             return out
-        if not typed_equal(got, stores[name]):
+        if canon(got) != canon(stores[name]):
             out.append(O.V("uptodate-but-wrong", f"after the cut, store {name} (node {n['id']}) looks up to date but holds "
                                                  f"{canon(got)[:160]}; from scratch: {canon(stores[name])[:160]}"))
             return out
